@@ -199,7 +199,7 @@ readArray:
 				return nil, errors.New("corrupt input: expected float, but no more values")
 			}
 			val := math.Float64frombits(a.tape.Tape[a.off])
-			if val > math.MaxInt64 {
+			if val >= math.MaxInt64 {
 				return nil, errors.New("float value overflows int64")
 			}
 			if val < math.MinInt64 {
@@ -250,7 +250,7 @@ readArray:
 				return nil, errors.New("corrupt input: expected float, but no more values")
 			}
 			val := math.Float64frombits(a.tape.Tape[a.off])
-			if val > math.MaxInt64 {
+			if val >= math.MaxUint64 {
 				return nil, errors.New("float value overflows uint64")
 			}
 			if val < 0 {
